@@ -310,7 +310,7 @@ def continuation(S):
     H[ValidatedReader] = lambda S, raw, validation=None: SObj(None, kind="VReader")
     H["VReader.read_next_batch_with_custom_metadata"] = lambda S, r: (W.batch("tick", 0, 0), req_md)
     resolved = SObj(None, kind="ResolvedCall", output_schema=SObj(None, kind="Schema", tag="output"), input_schema=_EMPTY_SCHEMA, stream_id="stream-1", call_state=None)
-    H["_unpack_and_recover_state"] = lambda S, app_, token, call_token, state_info, auth: (SObj(None, kind="State"), resolved, b"call-id", b"cursor-plaintext")
+    H["_unpack_and_recover_state"] = lambda S, app_, token, call_token, state_info, auth, *a, **k: (SObj(None, kind="State"), resolved, b"call-id", b"cursor-plaintext")
     got = {}
 
     def turn(S, app_, **kw):
